@@ -30,7 +30,7 @@ def explore(chk):
     b = core.Batch()
     jobs = []
     # (a)
-    vals = [0, 1, 7, 33.333, 640, 1e4, 12.5, 0.005, 36, 64]
+    vals = [0, 1, 7, 33.333, 640, 1e4, 12.5, 0.005, 36, 64, 147.2, 75.6, 63.99, 9.2, 52.8, 5.1]     # the last six: percentages a hair below a whole number
     dims = [0, None, 640, 360, 1, 1920, 7]
     for u in geo.UNITS:
         for v in vals:
